@@ -155,10 +155,12 @@ def fault_filter(kind, path, args):
 
 
 def scenario_name(sc):
-    base = {"plain": "data", "dots": "a.b.c.tar", "space": "my file v1.0"}[sc["name"]]
-    if sc["via"] == "suffix":
-        return base + "." + sc["fmt"]
-    return base + ".bin"
+    base = {"plain": "data", "dots": "a.b.c.tar", "space": "my file v1.0",
+            "long": "granule_" + "x" * 400}[sc["name"]]
+    ext = "." + sc["fmt"] if sc["via"] == "suffix" else ".bin"
+    if sc["name"] == "long":
+        base = base[:255 - len(ext)]       # a legal name of exactly 255 bytes
+    return base + ext
 
 
 def run_scenario(rec, sc, fault=None, golden=None):
@@ -566,7 +568,7 @@ def gen_scenarios(rng, fmt, n):
     for _ in range(n):
         out.append({"fmt": fmt, "via": rng.choice(["suffix", "suffix", "fmt"]),
                     "content": rng.choice(CONTENTS), "cseed": rng.randrange(10 ** 6),
-                    "name": rng.choice(["plain", "dots", "space"]),
+                    "name": rng.choice(["plain", "dots", "space", "long"]),
                     "tmpdir": rng.choice(["explicit", "default"]),
                     "pre": rng.random() < 0.4, "dtarget": rng.random() < 0.3,
                     "dtarget_pre": rng.random() < 0.5})
@@ -605,7 +607,7 @@ def run_shard(spec, rec):
     fmt = spec["fmt"]
     # every content class at least once per format across the four parts
     fixed = [{"fmt": fmt, "via": "suffix" if (i + spec["part"]) % 3 else "fmt", "content": c,
-              "cseed": spec["seed"] * 100 + i, "name": ["plain", "dots", "space"][(i + spec["part"]) % 3],
+              "cseed": spec["seed"] * 100 + i, "name": ["plain", "dots", "space", "long"][(i + spec["part"]) % 4],
               "tmpdir": ["explicit", "default"][(i + spec["part"]) % 2], "pre": bool(i % 2),
               "dtarget": i % 3 == 0, "dtarget_pre": i % 2 == 0}
              for i, c in enumerate(CONTENTS) if i % 4 == spec["part"]]
